@@ -8,6 +8,7 @@ import props.c03 as c03
 from common import cq_list
 
 ID = "C16"
+THOROUGH_ROUNDS = 3      # rounds of generate() in the thorough tier (new random draws each round)
 COQ_MODULE = "Corr.StocksC"
 COQ_HEADER = "Definition check_all (l : list case) : bool := forallb check l."
 COQ_CHECK = "check_all"
